@@ -33,7 +33,7 @@ static std::string rat(double v) {
   while ((n % 2) == 0) { n /= 2; ++e; }
   std::ostringstream o;
   if (e >= 0) {
-    if (e > 62 - 53) { char buf[64]; snprintf(buf, sizeof buf, "%a", v); return buf; }
+    if (e > 70) { char buf[64]; snprintf(buf, sizeof buf, "%a", v); return buf; }
     __int128 big = (__int128)n << e;
     bool neg = big < 0; if (neg) big = -big;
     std::string s; if (big == 0) s = "0";
